@@ -335,6 +335,30 @@ Theorem C10_every_call_answered_once : forall ins s, cup s = true -> Forall inbo
 Proof. exact every_call_answered_once. Qed.
 Print Assumptions C10_every_call_answered_once.
 
+(* "... fails exactly that call; the connection stays up and every other outstanding or later call is unaffected", for FIRE-AND-FORGET
+   calls (callRemoteOnly: request id 0, which CallUnslicer.receiveChild registers nowhere and nobody answers) [T the same translated
+   programs; CallUnslicer.reportViolation may do any of the known statements under its ABORT / stage tests, e.g. retire the table entry:
+   the interpreter decides what that does for an id that was never registered; C the same correspondence, one-way calls of every kind in
+   the batches]: whatever goes wrong with a one-way call -- the caller's ABORT, a rejection by the callee, arguments not ready, the method
+   raising, a result that cannot be serialized (never sent) -- it leaves no message, no table entry, nothing swallowed, and the
+   connection up.  No hypothesis besides the request id. *)
+Theorem C10_one_way_contained : forall i s, cup s = true -> d_reqid (in_env i) = 0 ->
+  let s' := handle i s in
+  cup s' = true /\ sent s' = sent s /\ active s' = active s /\ swallowed s' = swallowed s.
+Proof. exact one_way_contained. Qed.
+Print Assumptions C10_one_way_contained.
+
+(* C10_every_call_answered_once for histories in which any number of one-way calls (all with request id 0) occur anywhere among the
+   ordinary ones (distinct non-zero ids; inbound_ok1 = one-way, or inbound_ok): every ordinary call gets exactly its replies, every
+   one-way call none, no message is ever addressed to request 0, nothing is swallowed, the connection stays up *)
+Theorem C10_every_call_answered_once_with_one_way : forall ins s, cup s = true -> Forall inbound_ok1 ins -> NoDup (nonzero_ids ins) ->
+  let s' := handle_all ins s in
+  cup s' = true /\ swallowed s' = swallowed s /\
+  (forall i, In i ins -> replies (reqid_of i) (sent s') = (replies (reqid_of i) (sent s) + expected_replies i)%nat) /\
+  (forall r, ~ In r (nonzero_ids ins) -> replies r (sent s') = replies r (sent s)).
+Proof. exact every_call_answered_once_with_one_way. Qed.
+Print Assumptions C10_every_call_answered_once_with_one_way.
+
 (* one delivery, with everything it leaves behind: one message for its request id, its activeLocalCalls entry gone *)
 Theorem C10_delivery_answered_once : forall e s, cup s = true -> d_reqid e <> 0 -> d_answer e <> SCrash ->
   outcome_ok (d_reqid e) 1 (active s) s (handle (InDelivered e) s).
